@@ -72,3 +72,134 @@ func VH_C06_reduction() {
 		vC06Reduce(4, 3, false, true)
 	}
 }
+
+// ---- text: print -> parse ---------------------------------------------------------
+
+func vC06PrintParse(fam int, kinds int, cap int) {
+	L := vIntIn("L", 1, cap)
+	A := vGenFamily("A", fam, L, kinds)
+	s := A.String()
+	vCover("printed")
+	var B Location
+	var err error
+	if vPanics(func() { B, err = AsLocation(s) }) {
+		vAssert("parse-no-panic", false)
+		return
+	}
+	vAssert("parse-accepts-printed", err == nil)
+	if err != nil {
+		return
+	}
+	as, bs := vAtoms(A), vAtoms(B)
+	vAssert("same-atoms", vSameAtoms(as, bs))
+	s2 := B.String()
+	vAssert("prints-identically", s2 == s)
+	vObserve("len", len(s))
+}
+
+//verif:harness prop=C06 quick=6 thorough=11
+//verif:bounds print->parse: constructor-built locations, every partial combination; quick: atoms with coordinates in [0,999], 2-part families 1..5 with coordinates in [0,8] (one digit); thorough: atoms in [0,99999], 2-part families in [0,99], 3-part families 6..10 in [0,8]; String() via the decimal-digit model, AsLocation via the real pars parser
+func VH_C06_print_parse() {
+	n := vFamS1
+	if vTier() == 1 {
+		n = vFamS2
+	}
+	fam := vShard(n)
+	cap := 8
+	switch {
+	case fam == 0 || fam == 3:
+		cap = 999 + 99000*vTier()
+	case fam < 6:
+		cap = 8 + 91*vTier()
+	}
+	vC06PrintParse(fam, 4, cap)
+}
+
+// ---- text: parse -> print is a fixed point -------------------------------------------
+
+// vLocAlphabet constrains a byte to the location alphabet (digits, punctuation of the
+// grammar, space, the letters of join/order/complement, and 'x' standing for anything else).
+func vLocAlphabet(c byte) bool {
+	ok := vAnd('0' <= c, c <= '9')
+	for _, a := range []byte("<>.^,()+- joinrdecmplt" + "x") {
+		ok = vOr(ok, c == a)
+	}
+	return ok
+}
+
+func vC06FixedPoint(s string) {
+	var v Location
+	var err error
+	if vPanics(func() { v, err = AsLocation(s) }) {
+		vAssert("parse-no-panic", false)
+		return
+	}
+	if err != nil {
+		vCover("rejected")
+		return
+	}
+	vCover("accepted")
+	var s2 string
+	if vPanics(func() { s2 = v.String() }) {
+		vAssert("print-no-panic", false)
+		return
+	}
+	var v2 Location
+	var err2 error
+	if vPanics(func() { v2, err2 = AsLocation(s2) }) {
+		vAssert("reparse-no-panic", false)
+		return
+	}
+	vAssert("reparse-accepts", err2 == nil)
+	if err2 != nil {
+		return
+	}
+	vAssert("fixed-point", v2.String() == s2)
+	vAssert("same-atoms", vSameAtoms(vAtoms(v), vAtoms(v2)))
+	vObserve("len2", len(s2))
+}
+
+//verif:harness prop=C06 quick=4 thorough=6 merge=concrete
+//verif:bounds parse->print fixed point: every string of length 1..4 (quick) / 1..6 (thorough) over the location alphabet (all bytes symbolic)
+func VH_C06_parse_print_free() {
+	n := 4
+	if vTier() == 1 {
+		n = 6
+	}
+	k := 1 + vShard(n)
+	b := vBytes("s", k)
+	for _, c := range b {
+		vAssume(vLocAlphabet(c))
+	}
+	vC06FixedPoint(string(b))
+}
+
+//verif:harness prop=C06 quick=6 thorough=6 merge=concrete
+//verif:bounds parse->print fixed point on templates join(H,H) order(H,H) complement(H) complement(join(H,H)) H..H> <H..>H with 1..2 (quick) / 1..3 (thorough) symbolic alphabet bytes per hole H
+func VH_C06_parse_print_templates() {
+	max := 2 + vTier()
+	hole := func(name string) string {
+		k := 1 + vChoice(name+".n", max)
+		b := vBytes(name, k)
+		for _, c := range b {
+			vAssume(vLocAlphabet(c))
+		}
+		return string(b)
+	}
+	var s string
+	switch vShard(6) {
+	case 0:
+		s = "join(" + hole("a") + "," + hole("b") + ")"
+	case 1:
+		s = "order(" + hole("a") + "," + hole("b") + ")"
+	case 2:
+		s = "complement(" + hole("a") + ")"
+	case 3:
+		s = "complement(join(" + hole("a") + "," + hole("b") + "))"
+	case 4:
+		s = hole("a") + ".." + hole("b") + ">"
+	default:
+		s = "<" + hole("a") + "..>" + hole("b")
+	}
+	vC06FixedPoint(s)
+}
